@@ -25,6 +25,7 @@ DOC = {
  "C20.R4": "PgJoin / PgLeave: scope and group of the frame flow unchanged into join_scoped / leave_scoped; cells come from get_or_spawn / the proxy map",
  "C20.R6": "= C19.R2 (framing): every read of a frame payload is bounded by min(len - buf.len(), chunk) computed inside the loop",
  "C20.R7": "every control_protocol::Actor built from a local cell is behind supports_remoting() (filter upstream of the map, or the true edge for single cells): Join, Leave, the post-auth scans and the pid events agree",
+ "C20.R8": "error discipline: no NodeSession handler propagates (`?`) the result of stop_and_wait / kill_and_wait / drain_and_wait on a proxy (a proxy that is already gone must not fail the session)",
  "C20.R5": "delivery path is inline: every send_serialized of handle_node is executed in handle_node itself (none inside a spawned task); the proxy's handle_serialized and the session's send path spawn nothing",
 }
 
@@ -285,6 +286,29 @@ def r7(run, db):
     run.anchor("places where local cells are described to the peer", n, 5)
 
 
+def r8(run, db):
+    """one remote reference going away must not take the session (and with it every other reference) down: the session
+    handlers tolerate a proxy that cannot be stopped any more (it has already exited, or the application stopped it).
+    Error discipline: the result of stopping a proxy is never propagated with `?` out of a NodeSession handler."""
+    n = 0
+    for f in db.crate_fns(RC):
+        if not re.search(r"NodeSession(::| as ractor::Actor>::)(handle_control|handle_supervisor_evt|handle_node|handle)::\{closure#0\}$", f.id):
+            continue
+        for c in f.calls():
+            if not c.matches(r"::(stop_and_wait|kill_and_wait|drain_and_wait)$"):
+                continue
+            n += 1
+            aw = await_of_call(f, c)
+            bad = []
+            for a in aw:
+                for b in try_branches_on(f, a.poll):
+                    if b["break_edge"] and any(x in edge_path_sites(f, [b["break_edge"]]) for x in f.exits()):
+                        bad.append(b)
+            run.check(not bad, "proxy-stop-error-not-propagated:%s" % f.id.split("::")[-2], "a failure to stop a proxy is not propagated out of the session handler",
+                      "%s propagates (`?`) the result of stopping a remote-actor proxy: a proxy that has already exited (its own ActorTerminated is what is being handled) or was stopped by the application makes the NodeSession itself fail, which kills every other remote reference and the connection" % f.id.split("::")[-2], c.where())
+    run.anchor("proxy stop sites in session handlers", n, 2)
+
+
 Q = ["rc"]
 TH = ["rc", "rcatr"]
-RULES = [{"id": "C20.R%d" % i, "fn": f, "quick": Q, "thorough": TH} for i, f in enumerate([r1, r2, r3, r4, r5, r6, r7], 1)]
+RULES = [{"id": "C20.R%d" % i, "fn": f, "quick": Q, "thorough": TH} for i, f in enumerate([r1, r2, r3, r4, r5, r6, r7, r8], 1)]
